@@ -1,7 +1,7 @@
 #!/bin/bash
 # usage: try_patch.sh <patch.diff> <ID> [<ID>...]   -- apply to /repo, run quick checks, always revert
 set -u
-patch=$1; shift
+patch=$(realpath "$1"); shift
 cd /repo || exit 3
 if ! git -C /repo apply --check "$patch" 2>/dev/null; then echo "PATCH DOES NOT APPLY: $patch"; exit 3; fi
 git -C /repo apply "$patch"
